@@ -25,13 +25,35 @@ package loadbalancer
 //@ pred rrDistinct(rr *RoundRobinStrategy) := forall i int :: forall j int :: 0 <= i && i < j && j < len(rr.backends) ==> rr.backends[i] != rr.backends[j]
 //@ pred rrNonNil(rr *RoundRobinStrategy) := forall i int :: {rr.backends[i]} 0 <= i && i < len(rr.backends) ==> rr.backends[i] != nil
 
+// C05 / C02: round robin takes tickets (rr.current) and skips, inside the rotation, every backend that is inside
+// its unhealthy window: the request goes to the NEXT ELIGIBLE backend in rotation order, so with a stable set of m
+// eligible backends each of them gets exactly one of every m consecutive requests (if the skipped turns went to a
+// fallback scan instead, the first eligible backend of the list would absorb them). ticketsTaken: how far the
+// counter moved, modulo 2^64.
+// (tkt is the identity on ticket numbers; it only gives the quantifiers below a term to be instantiated on)
+//@ ufun tkt(Int) Int
+//@ axiom forall t int :: {tkt(t)} tkt(t) == t
+//@ pred ticketsTaken(c1 int, c0 int) int := (c1 - c0 + 18446744073709551616) % 18446744073709551616
+//@ pred ticketAt(rr *RoundRobinStrategy, c0 int, t int) *Backend := rr.backends[((c0 + t) % 18446744073709551616) % len(rr.backends)]
 //@ func (*RoundRobinStrategy).NextBackend
 //@   props C02 C05 C12
-//@   requires unlocked(rr.mutex)
+//@   requires unlocked(rr.mutex) && noBackendLocks()
+//@   requires forall i int :: {rr.backends[i]} 0 <= i && i < len(rr.backends) ==> rr.backends[i] != nil
 //@   ensures empty: len(rr.backends) == 0 ==> result == nil && rr.current == old(rr.current)
-//@   ensures ticket: len(rr.backends) > 0 ==> rr.current == (old(rr.current) + 1) % 18446744073709551616
-//@   ensures rotation: len(rr.backends) > 0 ==> result == rr.backends[rr.current % len(rr.backends)]
+//@   ensures at_most_one_turn: len(rr.backends) > 0 ==> 1 <= ticketsTaken(rr.current, old(rr.current)) && ticketsTaken(rr.current, old(rr.current)) <= len(rr.backends)
+//@   ensures rotation: result != nil ==> result == rr.backends[rr.current % len(rr.backends)]
+//@   ensures picked_is_eligible: result != nil ==> candidateAt(result, now())
+//@   ensures only_ejected_backends_are_skipped: forall t int :: {tkt(t)} 1 <= t && t < ticketsTaken(rr.current, old(rr.current)) ==> !candidateAt(ticketAt(rr, old(rr.current), tkt(t)), entry_now())
+//@   ensures nil_only_after_a_full_turn_of_ejected_backends: result == nil && len(rr.backends) > 0 ==> ticketsTaken(rr.current, old(rr.current)) == len(rr.backends) && !candidateAt(rr.backends[rr.current % len(rr.backends)], entry_now())
 //@   ensures member: result != nil ==> exists i int :: 0 <= i && i < len(rr.backends) && rr.backends[i] == result
+//@   modifies rr.current
+//@ loop (*RoundRobinStrategy).NextBackend #0
+//@   props C02 C05 C12
+//@   invariant idx: -1 <= rangeindex && rangeindex < len(rr.backends)
+//@   invariant same: rlocked(rr.mutex) && n == len(rr.backends) && len(rr.backends) > 0
+//@   invariant tickets: rr.current == (old(rr.current) + rangeindex + 1) % 18446744073709551616
+//@   invariant skipped: forall t int :: {tkt(t)} 1 <= t && t <= rangeindex + 1 ==> !candidateAt(ticketAt(rr, old(rr.current), tkt(t)), entry_now())
+//@   decreases len(rr.backends) - rangeindex
 //@   modifies rr.current
 
 //@ func (*RoundRobinStrategy).AddBackend
